@@ -106,6 +106,26 @@ def quantified_variable_named_like_fresh(varname, marked_l2):
     return pr
 
 
+def colliding_negation_names(names):
+    """Boolean fluents named so that the names the negative-conditions remover derives for the companions (`not_<f>`, `not_<f>_0`) collide with
+    each other or with declared fluents; every fluent occurs negated"""
+    pr = Problem("colliding_negation_names_" + "_".join(names))
+    fl = [Fluent(n, BoolType()) for n in names]
+    for f in fl:
+        pr.add_fluent(f, default_initial_value=False)
+    for i, f in enumerate(fl):
+        act = InstantaneousAction(f"set_{i}")
+        act.add_precondition(Not(f))
+        act.add_effect(f, True)
+        pr.add_action(act)
+    clear = InstantaneousAction("clear")
+    clear.add_precondition(fl[0])
+    clear.add_effect(fl[0], False)
+    pr.add_action(clear)
+    pr.add_goal(And(fl[0], Not(fl[-1])))
+    return pr
+
+
 def boolean_copy_assignment(src0, goal):
     """a Boolean fluent assigned the value of ANOTHER fluent (not a constant) whose negation a later action or the goal needs: the negative
     conditions remover has to keep the companion of the assigned fluent equal to the negated value"""
@@ -347,6 +367,8 @@ def crafted_cases():
     for vn in ("pos_loc", "pos_Loc", "pos_loc_0"):
         for m in (True, False):
             out.append(("crafted:quantified_variable_named_like_fresh", (CK.USERTYPE_FLUENTS_REMOVING,), quantified_variable_named_like_fresh(vn, m)))
+    for names in (("a", "not_a", "a_0"), ("a", "a_0", "not_a"), ("a_0", "not_a", "a"), ("a", "not_a", "not_a_0"), ("not_a", "a")):
+        out.append(("crafted:colliding_negation_names", (CK.NEGATIVE_CONDITIONS_REMOVING,), colliding_negation_names(names)))
     for src0 in (True, False):
         for goal in ("neg", "pos"):
             out.append(("crafted:boolean_copy_assignment", (CK.NEGATIVE_CONDITIONS_REMOVING,), boolean_copy_assignment(src0, goal)))
